@@ -70,6 +70,7 @@ class Ctx:
         self.max_violations = 10
         self.exhaustive: Optional[bool] = None
         self.notes: Dict[str, Any] = {}
+        self._failed_cases: set = set()
 
     # ---- tiers -------------------------------------------------------------------------
     @property
@@ -111,6 +112,10 @@ class Ctx:
             self.known_hits[key] = self.known_hits.get(key, 0) + 1
             self.known_examples.setdefault(key, {"case": case, "what": what})
             return
+        hv = h64(case)
+        if hv in self._failed_cases:
+            return  # one witness per case
+        self._failed_cases.add(hv)
         self.count("violations_total")
         if len(self.violations) >= self.max_violations:
             return
